@@ -81,7 +81,7 @@ class Check:
 
     # ------------------------------------------------------------------ TLC: witnesses
     def witnesses(self, label, consts, module='USimW', spec='SpecW', emit='Emit', timeout=3000,
-                  invariants=(), coverage=False):
+                  invariants=(), coverage=False, limit=None):
         """one TLC run: checks the design-level invariants on every state AND prints witness programs"""
         cfg = os.path.join(self.tmp, 'w_%s.cfg' % label)
         tlc.write_cfg(cfg, spec, consts, invariants=list(invariants) + [emit], view='View')
@@ -92,8 +92,10 @@ class Check:
         if r.errors:
             sys.stderr.write(r.out[-6000:])
             raise MachineryError('witness generation %s failed: %s' % (label, r.errors[:3]))
-        ws, bad = parse_witnesses(r.out)
+        import random
+        ws, bad = parse_witnesses(r.out, limit=limit, rng=random.Random(self.seed))
         self.tlc_runs.append({'label': label, 'module': module, 'constants': _jsonable(consts),
+                              'witnesses_emitted': parse_witnesses.total,
                               'invariants_checked': list(invariants), 'complete': r.complete,
                               'actions_never_taken': sorted(a for a, (d, g) in r.coverage.items() if g == 0),
                               'generated': r.generated, 'distinct': r.distinct, 'witness_programs': len(ws),
